@@ -107,7 +107,7 @@ func vsBatchEquation(es []vEntry, rnd []byte, variant int, ctx string) bool {
 }
 
 var vBatchSizesQuick = [...]int{0, 1, 2, 3, 4, 5, 6, 8, 9, 68, 70, 131}
-var vBatchSizesThorough = [...]int{0, 1, 2, 3, 4, 5, 6, 7, 8, 9, 13, 63, 64, 65, 67, 68, 69, 127, 128, 129, 130, 131}
+var vBatchSizesThorough = [...]int{0, 1, 2, 3, 4, 5, 6, 7, 8, 9, 13, 63, 64, 65, 68, 70, 128, 131}
 
 // malformed-entry kinds: 0 none, 1 key of 31 bytes, 2 signature of 63 bytes, 3 signature of 65 bytes, 4 nil signature, 5 nil key,
 // 6 key of 33 bytes, 7 key of 64 bytes, 8 digest of 63 bytes (ph)
@@ -281,7 +281,7 @@ func vBatchCase(variant int) {
 	} else {
 		n = vBatchSizesThorough[vCase(0, len(vBatchSizesThorough)-1)]
 	}
-	vNote("batch lengths: quick {0,1,2,3,4,5,6,8,9} fully symbolic plus {68,70,131} with the first 64 resp. 128 entries being one replicated symbolic entry (second/third chunk and remainder independent); thorough adds {7,13} fully symbolic and {63,64,65,67,68,69,127..131} with all but the last six entries replicated and every malformed kind among the independent ones; at most one malformed entry (8 kinds: short/long/nil key, short/long/nil signature, short digest) at first/middle/last position; all entry bytes symbolic; messages opaque")
+	vNote("batch lengths: quick {0,1,2,3,4,5,6,8,9} fully symbolic plus {68,70,131} with the first 64 resp. 128 entries being one replicated symbolic entry (second/third chunk and remainder independent); thorough adds {7,13} fully symbolic and {63,64,65,68,70,128,131} with all but the last six entries replicated and a short signature / long key / short digest among the independent ones; at most one malformed entry (8 kinds: short/long/nil key, short/long/nil signature, short digest) at first/middle/last position; all entry bytes symbolic; messages opaque")
 	vReplicate = 0
 	if vTier() == 0 && n > 9 {
 		vReplicate = (n / 64) * 64
@@ -301,6 +301,18 @@ func vBatchCase(variant int) {
 		// multi-chunk batches in the quick tier: well-formed, or a truncated signature at the last position
 		if vCase(0, 1) == 1 {
 			badKind, badPos = 2, n-1
+		}
+	} else if n > 13 {
+		// thorough, chunk-boundary lengths: well-formed, or one of three malformed kinds (short signature, long
+		// key, short digest where it applies) at the first independent / the last position
+		kinds := [...]int{0, 2, 6, 8}
+		k := kinds[vCase(0, maxKind/3+1)]
+		if k != 0 {
+			badKind = k
+			badPos = n - 1
+			if vCase(0, 1) == 1 {
+				badPos = vReplicate
+			}
 		}
 	} else if n > 0 {
 		badKind = vCase(0, maxKind)
